@@ -52,6 +52,12 @@ def monitor(case, tr, raw):
                         return "every kernel thread went idle (3 polls each) while runnable fiber %d stayed queued" % f
         if kind == -9:
             return "the runtime crashed (signal %d) under this schedule" % val
+        if kind in (9, 19) and 400 <= loc < 400 + 20 * 64 and 2 <= (loc - 400) % 20 <= 6 and (loc - 400) // 20 != t \
+                and (loc - 400) // 20 < max(nthread_fibers, 1):
+            return ("kernel thread %d %s a deferred-action slot (field %d) of kernel thread %d's manager: a fiber is acting "
+                    "through the manager of a thread it no longer runs on, so that thread's pending unlock / publication / "
+                    "reclamation is performed before (or instead of) its own context switch"
+                    % (t, "wrote" if kind == 19 else "read", (loc - 400) % 20, (loc - 400) // 20))
         if kind == 19 and 400 <= loc < 400 + 20 * 64 and (loc - 400) % 20 == 7 and val >= 1000:
             maint[val] = (loc - 400) // 20          # kernel thread (loc-400)/20 names its scheduler-loop fiber
             continue
